@@ -280,11 +280,11 @@ func TestVerifC17MqttGated(t *testing.T) {
 				c.cl.Close()
 			}
 		}
-		// lockFree: can the broker lock be taken (within 300ms)?  The pinned tree writes the CONNACK of an attempt refused by
+		// lockFree: can the broker lock be taken (within 100ms)?  The pinned tree writes the CONNACK of an attempt refused by
 		// the second check while it holds the broker lock: a client that does not read that CONNACK would stall the whole
 		// broker (and this harness with it), so such a client reads its CONNACK at once (its "take" step is then empty).
 		lockFree := func() bool {
-			for i := 0; i < 300; i++ {
+			for i := 0; i < 100; i++ {
 				if x.b.TryLock() {
 					x.b.Unlock()
 					return true
